@@ -445,4 +445,52 @@ class Check(common.Check):
         return h
 
     def shrink(self, case, fails):
-        return common.shrink_list(case, fails)
+        """delta-debug the command lines, drop unreferenced definitions, then thin out behaviours"""
+        import re
+        defs = [l for l in case if l.split()[0] in ('task', 'new')]
+        cmds = [l for l in case if l.split()[0] not in ('task', 'new')]
+
+        def prune(defs, cmds):
+            """definitions still referenced by the commands (transitively through behaviours)"""
+            text = ' '.join(cmds)
+            tasks, clocks = set(), set(re.findall(r'\bt(\d+)\b', text))
+            for m in re.finditer(r'\b(?:s|q) \S+ (\d+)\b|half \S+ (\d+)', text):
+                tasks.add(m.group(1) or m.group(2))
+            body = {l.split()[1]: l for l in defs if l.startswith('task')}
+            todo = list(tasks)
+            while todo:
+                t = todo.pop()
+                for m in re.finditer(r'(\w+):[sq]:[^: ]+:(\d+)', body.get(t, '')):
+                    if m.group(2) not in tasks:
+                        tasks.add(m.group(2)); todo.append(m.group(2))
+                clocks |= set(re.findall(r'\bt(\d+):', body.get(t, '')))
+            keep = []
+            for l in defs:
+                w = l.split()
+                if (w[0] == 'task' and w[1] in tasks) or (w[0] == 'new' and w[1] in clocks):
+                    keep.append(l)
+            return keep
+
+        ok = lambda c: fails(prune(defs, c) + c)
+        if cmds and ok(cmds):
+            cmds = common.shrink_list(cmds, ok, max_steps=120)
+        defs = prune(defs, cmds)
+        # thin out behaviours: fewer behaviours per task, fewer atoms per behaviour
+        for i, l in enumerate(list(defs)):
+            if not l.startswith('task'):
+                continue
+            w = l.split()
+            behs = [b.split() for b in ' '.join(w[3:]).split('|') if b.split()]
+            changed = True
+            while changed:
+                changed = False
+                cands = [behs[:j] + behs[j + 1:] for j in range(len(behs))]
+                cands += [behs[:j] + [b[:k] + b[k + 1:]] + behs[j + 1:]
+                          for j, b in enumerate(behs) for k in range(len(b) - 1)]
+                for cb in cands[:12]:
+                    nl = ' '.join(w[:3]) + ' ' + ' | '.join(' '.join(b) for b in cb)
+                    trial = defs[:i] + [nl] + defs[i + 1:]
+                    if fails(prune(trial, cmds) + cmds) and len(prune(trial, cmds)) == len(trial):
+                        behs, defs, changed = cb, trial, True
+                        break
+        return prune(defs, cmds) + cmds
